@@ -4,10 +4,10 @@ CONSTANTS
   InitHeaps <- MCInit
   MaxDepth = 2
   Breaks <- BreaksQ
-  Degs <- DegsQ
-  MaxNpts = 5
-  CtorLen = 6
-  Rich = FALSE
+  Degs <- DegsT
+  MaxNpts = 7
+  CtorLen = 2
+  Rich = TRUE
   Acts = {}
 INVARIANT WellFormed
 PROPERTY FailedIsNoOp
